@@ -185,8 +185,9 @@ class _Rel:
 
 class Outcomes:
     def __init__(self, model: Model, func: FuncInfo, param_map: t.Optional[t.Dict[str, str]] = None, inline_unique_methods: bool = True,
-                 atom_map: t.Optional[t.Callable[[str], str]] = None):
+                 atom_map: t.Optional[t.Callable[[str], str]] = None, _depth: int = 0):
         self.model, self.func = model, func
+        self._depth = _depth
         self.atom_map = atom_map      # names atoms by their role, so that keys of quantified atoms are comparable with a specification
         self.cfg: CFG = cfg_of(model, func)
         self.nz = Normalizer(model, func, self.cfg, param_map=param_map, inline_unique_methods=inline_unique_methods)
@@ -361,6 +362,20 @@ class Outcomes:
         if isinstance(test, ast.Constant):
             return TRUE if test.value else FALSE
         n = self._node(test) if self.cfg.node_of(test) is not None else self._anchor
+        if isinstance(test, ast.Call) and self._depth < 3 and not test.keywords and not any(isinstance(a, ast.Starred) for a in test.args):
+            # a Boolean helper of the package (`_is_text(val)`): its own outcome formula over the caller's arguments
+            q = self.model.resolve(test.func, self.func.module, self.func if isinstance(self.func.node, ast.FunctionDef) else None)
+            g = self.model.functions.get(q or '')
+            if g is not None and g is not self.func and g.cls is None and isinstance(g.node, ast.FunctionDef) and len(g.params) == len(test.args) \
+                    and n is not None:
+                try:
+                    pm = {p_: self.nz.expr(a, n, bound) for p_, a in zip(g.params, test.args)}
+                    sub = Outcomes(self.model, g, pm, atom_map=self.atom_map, _depth=self._depth + 1)
+                    bv = sub.by_value()
+                    if bv and set(bv) <= {('return', 'True'), ('return', 'False')}:
+                        return bv.get(('return', 'True'), FALSE)
+                except AnalysisError:
+                    pass
         text, pos = self.nz.literal(test, n, bound)
         if self.atom_map is not None:
             text = self.atom_map(text)
